@@ -399,6 +399,9 @@ def run_case(case: Any) -> dict[str, Any]:
         V, c0 = e2.check_success(run)
         mine = [v for v in V if v["key"].startswith("current-")]
         c = {"component_construction_cases": 1}
+        for k in ("contexts_created_after_startup_by_a_task_spawned_from_a_component", "contexts_created_in_a_component_tree_started_inside_a_component"):
+            if c0.get(k):
+                c[k] = c0[k]
         if any(not v["key"].startswith("current-") for v in V):
             c["cross_firing_component_checks"] = 1
         return {"violations": mine, "sig": ("components", run.trace.signature()), "nontrivial": True, "counters": c, "sample": None}
